@@ -353,6 +353,10 @@ pub(in crate::sql) fn except(
 
         // filter has to check for nullability of bottom
         // (this could be loosened to check only for nulls in a previously non-nullable column)
+        // and for nothing else: any other condition would be lost with the filter
+        if !only_equals(filter) {
+            continue;
+        }
         let (filter_left, filter_right) = collect_equals(filter)?;
         if !(all_in(&bottom, filter_left) && all_null(filter_right)) {
             continue;
@@ -535,6 +539,17 @@ fn collect_equals(expr: &Expr) -> Result<(Vec<&Expr>, Vec<&Expr>)> {
     }
 
     Ok((lefts, rights))
+}
+
+/// True if the expression is a conjunction of equalities, i.e. if `collect_equals` sees all of it
+fn only_equals(expr: &Expr) -> bool {
+    match &expr.kind {
+        ExprKind::Operator { name, args } if name == "std.eq" && args.len() == 2 => true,
+        ExprKind::Operator { name, args } if name == "std.and" && args.len() == 2 => {
+            only_equals(&args[0]) && only_equals(&args[1])
+        }
+        _ => false,
+    }
 }
 
 fn col_refs(exprs: Vec<&Expr>) -> Vec<CId> {
